@@ -12,9 +12,15 @@ NoWord == [w |-> <<>>, kind |-> "none", u |-> ""]
 VARIABLE word
 Init == word \in {[w |-> nm.w, kind |-> "name", u |-> nm.u] : nm \in UNames}
 Short == {nm \in UNames : Len(nm.w) <= 3}
+\* the one-letter names that are also prefix symbols (m h T M c a y), in front of a prefixed short name: `mkg`, `hkW`
+Shared1 == {nm \in UNames : Len(nm.w) = 1 /\ \E p \in UPrefixes : p.w = nm.w}
+Sym == {p \in UPrefixes : Len(p.w) <= 2}
+Short2 == {nm \in UNames : Len(nm.w) <= 2}
 Next == /\ word.kind = "name"
         /\ \/ \E p \in UPrefixes : word' = [w |-> p.w \o word.w, kind |-> "prefixed", u |-> word.u]
            \/ (Two /\ Len(word.w) <= 3 /\ \E nm \in Short : word' = [w |-> word.w \o nm.w, kind |-> "two", u |-> word.u])
+           \/ (word.w \in {nm.w : nm \in Shared1} /\ \E p \in Sym, nm \in Short2 :
+                   word' = [w |-> word.w \o p.w \o nm.w, kind |-> "three", u |-> word.u])
 Spec == Init /\ [][Next]_word
 Sound == LET p == ParseWord(word.w) IN p.ok => p.r \in Readings(word.w)
 NamesAlone == word.kind = "name" =>
